@@ -16,6 +16,7 @@ import z3
 
 BRANCH_TIMEOUT_MS = 20_000
 PROVE_TIMEOUT_MS = 30_000
+MODEL_TIMEOUT_MS = 4_000
 
 
 class Signal(BaseException):
@@ -229,6 +230,9 @@ class Ctx:
         if z3.is_false(cond):
             return False
         i = len(self.decisions)
+        known = self._decided_before(cond)
+        if known is not None:
+            return known  # same comparison (up to normal form) already decided on this path: no new fork
         if i < len(self.prefix):
             d = self.prefix[i]
         else:
@@ -248,7 +252,38 @@ class Ctx:
         c = cond if d else z3.Not(cond)
         self.pc.append(c)
         self._add(c)
+        self._remember(cond, d)
         return d
+
+    _CMP = {z3.Z3_OP_LT: "lt", z3.Z3_OP_LE: "le", z3.Z3_OP_GT: "gt", z3.Z3_OP_GE: "ge", z3.Z3_OP_EQ: "eq"}
+
+    def _cmp_parts(self, cond):
+        neg = False
+        while z3.is_not(cond):
+            cond = cond.arg(0)
+            neg = not neg
+        if not z3.is_app(cond) or cond.decl().kind() not in self._CMP or not z3.is_real(cond.arg(0)):
+            return None
+        return self._CMP[cond.decl().kind()], cond.arg(0) - cond.arg(1), neg
+
+    def _remember(self, cond, d):
+        parts = self._cmp_parts(cond)
+        if parts is not None and len(cond.sexpr()) > 200:  # only worth it for large terms
+            op, diff, neg = parts
+            self.__dict__.setdefault("_decided", []).append((op, diff, d != neg))
+
+    def _decided_before(self, cond):
+        dec = self.__dict__.get("_decided")
+        if not dec:
+            return None
+        parts = self._cmp_parts(cond)
+        if parts is None:
+            return None
+        op, diff, neg = parts
+        for op0, diff0, val in dec:
+            if op0 == op and poly_zero(diff, diff0):
+                return val != neg
+        return None
 
     def implied(self, cond):
         """True / False if the path condition (with assumptions) decides cond, else None. Cached per path."""
@@ -369,7 +404,7 @@ class Ctx:
         """A model of the path condition with all assumptions (vacuity witness / validation point), or None."""
         t0 = time.time()
         self.solver.push()
-        self.solver.set("timeout", BRANCH_TIMEOUT_MS)
+        self.solver.set("timeout", MODEL_TIMEOUT_MS)
         for e in self.assumptions:
             if z3.is_distinct(e) or (z3.is_not(e) and z3.is_eq(e.arg(0))):
                 self.solver.add(e)  # denominators (kept out of the incremental solver otherwise)
@@ -675,10 +710,53 @@ class Atomizer:
         lst.append((args, c))
         return c
 
+    @staticmethod
+    def _is_uf(t, name):
+        return z3.is_app(t) and t.decl().kind() == z3.Z3_OP_UNINTERPRETED and t.num_args() == 1 and t.decl().name() == name
+
+    def _factors(self, t, out):
+        """Flatten a product; erfcx(x) is expanded to exp(x^2) * (1 - erf(x)) on the way."""
+        if z3.is_app(t) and t.decl().kind() == z3.Z3_OP_MUL:
+            for c in t.children():
+                self._factors(c, out)
+        elif self._is_uf(t, "erfcx"):
+            x = t.arg(0)
+            out.append(uf_decl("exp")(x * x))
+            out.append(1 - uf_decl("erf")(x))
+        else:
+            out.append(t)
+
     def _run(self, t):
         if z3.is_const(t) or z3.is_rational_value(t) or z3.is_algebraic_value(t):
             return t
         kind = t.decl().kind()
+        if self._is_uf(t, "erfcx"):
+            x = t.arg(0)
+            return self.run(uf_decl("exp")(x * x) * (1 - uf_decl("erf")(x)))
+        if kind == z3.Z3_OP_MUL:
+            fs = []
+            self._factors(t, fs)
+            exps = [f for f in fs if self._is_uf(f, "exp")]
+            if len(exps) >= 2:  # exp(a) exp(b) = exp(a + b)
+                rest = [f for f in fs if not self._is_uf(f, "exp")]
+                merged = uf_decl("exp")(z3.Sum([e.arg(0) for e in exps]))
+                fs = rest + [merged]
+            parts = [self.run(f) if not (z3.is_app(f) and f.decl().kind() == z3.Z3_OP_MUL) else f for f in fs]
+            r = parts[0]
+            for q in parts[1:]:
+                r = r * q
+            return r
+        if self._is_uf(t, "erf"):  # erf is odd: erf(-x) = -erf(x)
+            arg = self.run(t.arg(0))
+            for oargs, c in self.atoms.setdefault("erf", []):
+                if poly_zero(oargs[0], arg):
+                    return c
+                if poly_zero(oargs[0], -arg):
+                    return -c
+            a0 = z3.simplify(arg)
+            if z3.is_rational_value(a0) and a0.numerator_as_long() == 0:
+                return z3.RealVal(0)
+            return self._atom("erf", [arg])
         if kind == z3.Z3_OP_ITE and self.implied is not None:
             c = t.children()[0]
             d = self.implied(c)
